@@ -357,6 +357,17 @@ func loadFindings(root string) []Finding {
 	return f.Findings
 }
 
+// KnownSignatures returns the signatures listed as known findings for a property.
+func KnownSignatures(root, prop string) map[string]bool {
+	out := map[string]bool{}
+	for _, f := range loadFindings(root) {
+		if f.Status == "known" && f.Property == prop {
+			out[f.Signature] = true
+		}
+	}
+	return out
+}
+
 // ---- main parent entry ----------------------------------------------------
 
 type ParentArgs struct {
